@@ -5,7 +5,7 @@ from .algo_eval import Evaluator, is_library_exc
 from .relang import DFA
 from .srcmodel import AnalysisError
 from .values import SStr, Sym
-from .vmodel import S_TERM, classify, eval_sym, holds, numerify_arg, term_segments
+from .vmodel import S_TERM, call_concrete, call_kind, classify, eval_sym, expansion_call, holds, numerify_arg, term_segments
 from .vrules import accept_language, consistent, describe_valuation, semantic, valuations
 
 
@@ -100,36 +100,57 @@ def rule_accept(m, report, prefix, entries):
                     r_up.finding(f"IBAN.{_entry(key)}[{cc}]", f"text with prefix {cc!r} accepted, which is not a well-formed country key", where(m, "validate"))
 
 
+def expansion_functions(m):
+    """Qualified names of the functions whose opaque calls carry the letter expansion in the arithmetic conditions."""
+    names = []
+    mods, recs = arithmetic_facts(m)
+    for a, d in mods:
+        c = expansion_call(d["value"])
+        if c is not None:
+            names.append(c.args[0])
+    for a, d in recs:
+        c = expansion_call(d["computed"])
+        if c is not None:
+            names.append(c.args[0])
+    return sorted(set(names))
+
+
 def rule_numerify(m, report, name):
-    """P2/P3: the letter expansion is decimal concatenation of per-character values 0-9, A=10 ... Z=35, in text order."""
-    r = report.rule(name, floor=36, what="numerify: digits map to 0..9, letters to 10..35, values concatenated as decimal strings in order")
-    ev = Evaluator(m.facts)
-    f = m.prog.get("schwifty.checksum.numerify")
-    it = m.facts.interp()
+    """P2/P3: the letter expansion is decimal concatenation of per-character values 0-9, A=10 ... Z=35, in text order.
+    Checked on every function that carries the expansion in the validators' arithmetic conditions (and on checksum.numerify)."""
+    r = report.rule(name, floor=36, what="letter expansion: digits map to 0..9, letters to 10..35, values concatenated as decimal strings in order")
+    quals = expansion_functions(m)
+    if m.prog.find("schwifty.checksum.numerify") is not None and "schwifty.checksum.numerify" not in quals:
+        quals.append("schwifty.checksum.numerify")
+    if not quals:
+        raise AnalysisError("anchor vanished: no letter-expansion function (checksum.numerify) found")
     ref = {c: i for i, c in enumerate("0123456789ABCDEFGHIJKLMNOPQRSTUVWXYZ")}
+    for q in quals:
+        f = m.prog.get(q)
+        short = f.short
+        kind = call_kind(q)
 
-    def call(s):
-        outs = it.explore(lambda: it.call_func(f, [s], {}, None), max_paths=20)
-        outs = [o for o in outs if o.kind != "infeasible"]
-        if len(outs) != 1:
-            raise AnalysisError("numerify is not deterministic on a concrete string")
-        return outs[0]
+        def value(o):
+            if o.kind != "return":
+                return f"raises {o.value.name}"
+            v = o.value
+            if kind == "str" and isinstance(v, str) and v.isdigit() and v.isascii():
+                return int(v)
+            return v
 
-    for c, v in ref.items():
-        o = call(c)
-        r.instance({"char": c, "value": o.value if o.kind == "return" else f"raises {o.value.name}"} if c in "09AZ" else None)
-        if o.kind != "return" or o.value != v:
-            got = o.value if o.kind == "return" else f"raises {o.value.name}"
-            r.finding(f"numerify[{c}]", f"numerify({c!r}) is {got!r}, ISO 13616 assigns {v}", f.where, witness=c)
-    probes = ["10", "A0", "0A", "AZ", "ZA", "1A2B", "Z9Z", "00A", "B1C2D3", "9Z8Y7X"]
-    for s_ in probes:
-        want = int("".join(str(ref[c]) for c in s_))
-        o = call(s_)
-        r.instance(None)
-        if o.kind != "return" or o.value != want:
-            got = o.value if o.kind == "return" else f"raises {o.value.name}"
-            r.finding("numerify:concatenation", f"numerify({s_!r}) is {got!r}; decimal concatenation in text order gives {want}", f.where, witness=s_)
-            break
+        for c, v in ref.items():
+            got = value(call_concrete(m.facts, q, c))
+            r.instance({"function": short, "char": c, "value": got} if c in "09AZ" else None)
+            if got != v or isinstance(got, bool):
+                r.finding(f"numerify[{c}]", f"{short}({c!r}) is {got!r}, ISO 13616 assigns {v}", f.where, witness=c)
+        probes = ["10", "A0", "0A", "AZ", "ZA", "1A2B", "Z9Z", "00A", "B1C2D3", "9Z8Y7X"]
+        for s_ in probes:
+            want = int("".join(str(ref[c]) for c in s_))
+            got = value(call_concrete(m.facts, q, s_))
+            r.instance(None)
+            if got != want:
+                r.finding("numerify:concatenation", f"{short}({s_!r}) is {got!r}; decimal concatenation in text order gives {want}", f.where, witness=s_)
+                break
 
 
 def _accepts(key, p):
@@ -176,7 +197,7 @@ def rule_arith(m, report, name):
         if segs != [(4, None), (0, 4)]:
             r.finding("IBAN.numeric:rearrangement", f"the number is built from text segments {segs}, ISO 13616 moves the first four characters to the end "
                       "([4:] + [0:4])", where(m, "numeric"))
-        if not _is_plain_numerify(d["value"]):
+        if not _is_the_number(d["value"]):
             r.finding("IBAN.numeric:expression", f"the remainder is taken of {d['value']!r}, not of the letter-expanded number itself", where(m, "numeric"))
     for a, d in recs:
         given = d["given"]
@@ -210,8 +231,14 @@ def rule_arith(m, report, name):
         r.finding("IBAN.validate:arithmetic", "no path consults a mod-97 condition", w)
 
 
-def _is_plain_numerify(v):
-    return isinstance(v, Sym) and v.kind == "call" and v.args[0].endswith("numerify")
+def _is_the_number(v):
+    """The term is the letter-expanded number itself (the expansion call, possibly converted from its digit string)."""
+    if expansion_call(v) is None:
+        return False
+    try:
+        return all(eval_sym(v, n) == n and not isinstance(eval_sym(v, n), bool) for n in (0, 1, 96, 97, 98, 10 ** 30 + 7))
+    except AnalysisError:
+        return False
 
 
 # ------------------------------------------------------------------------------------------------ C02
